@@ -54,6 +54,29 @@ pub enum Op {
         text: String,
     },
     Invoke(Invoke),
+    /// The generator step will write this manifest version when it next runs (overrides the
+    /// version named in the declared graph; the manifest file itself is not touched).
+    Plan {
+        gen: String,
+    },
+    /// What the commands of the steps with these first outputs read (and report) from now on,
+    /// without rewriting the manifest.
+    Effs {
+        reads: BTreeMap<String, Vec<String>>,
+    },
+    /// What the history model (N2Hist) predicts for the invocation just made; copied into the
+    /// trace as an `expect` event for the trace specification to compare.
+    Expect {
+        ran: Vec<String>,
+        ok: bool,
+        #[serde(default)]
+        deps: Vec<Vec<String>>,
+        #[serde(default)]
+        recorded: Vec<usize>,
+        /// requested names the model says the (reloaded) manifest does not have
+        #[serde(default)]
+        unknown: Vec<String>,
+    },
 }
 
 #[derive(Deserialize, Serialize, Clone, Debug, Default)]
@@ -74,6 +97,10 @@ pub struct Invoke {
     /// Declared step id (1-based, as string) -> "ok" | "fail" | "intr".
     #[serde(default)]
     pub outcomes: BTreeMap<String, String>,
+    /// First output name of a step -> outcome (for invocations that reload the manifest, where
+    /// step numbers change in between).
+    #[serde(default)]
+    pub outcomes_by_out: BTreeMap<String, String>,
     #[serde(default)]
     pub policy: Policy,
     /// Die while appending to the log: global write index (1-based over the
